@@ -107,6 +107,7 @@ type Result struct {
 	Digests         []string           `json:"digests,omitempty"`
 	WallS           float64            `json:"wall_s"`
 	DeterminismOK   bool               `json:"determinism_ok"`
+	DeterminismDiff string             `json:"determinism_diff,omitempty"`
 	ViolationCounts map[string]int     `json:"violation_counts"`
 	Extra           map[string]float64 `json:"extra,omitempty"`
 	// Conformance: divergences between emulated and real-block replays of this job's op sequences (harness errors)
@@ -185,13 +186,24 @@ func Run(spec Spec, opt Options) *Result {
 
 	// determinism self-check: build the scenario twice, take every first-level op on both, compare fingerprints.
 	// (a spec owns its world, so the first root is abandoned once the second is built)
+	// The second world takes the first-level operations in reverse order: every successor is computed on a branch that
+	// is thrown away, so an operation's result must not depend on which discarded siblings ran before it (state kept
+	// outside the store - a cache in a keeper, a package variable - would make the search itself meaningless).
 	first := spec.Init()
 	first.spec = spec
-	fp1 := e.firstLevel(first)
+	fp1 := e.firstLevel(first, false)
 	root := spec.Init()
 	root.spec = spec
-	fp2 := e.firstLevel(root)
+	fp2 := e.firstLevel(root, true)
 	res.DeterminismOK = strings.Join(fp1, "\n") == strings.Join(fp2, "\n")
+	if !res.DeterminismOK {
+		for i := range fp1 {
+			if i < len(fp2) && fp1[i] != fp2[i] {
+				res.DeterminismDiff = fmt.Sprintf("%s  vs  %s", fp1[i], fp2[i])
+				break
+			}
+		}
+	}
 
 	e.dfs(root, opt.Depth, 0)
 	res.States = len(e.visited)
@@ -208,14 +220,22 @@ func Run(spec Spec, opt Options) *Result {
 }
 
 // firstLevel fingerprints the root and every successor of the root.
-func (e *explorer) firstLevel(root *State) []string {
+func (e *explorer) firstLevel(root *State, reverse bool) []string {
 	k := stateKey(root)
-	out := []string{hex.EncodeToString(k[:])}
-	for _, op := range e.spec.Ops(root) {
+	ops := e.spec.Ops(root)
+	out := make([]string, len(ops)+1)
+	out[0] = hex.EncodeToString(k[:])
+	for j := range ops {
+		i := j
+		if reverse {
+			i = len(ops) - 1 - j
+		}
+		op := ops[i]
 		c := Child(root, op.Name)
+		stamp(root.Path, op.Name)
 		op.Run(c)
 		ck := stateKey(c)
-		out = append(out, fmt.Sprintf("%s|%x|%v|%s", op.Name, ck[:], c.Accepted, c.Outcome))
+		out[i+1] = fmt.Sprintf("%s|%x|%v|%s", op.Name, ck[:], c.Accepted, c.Outcome)
 	}
 	return out
 }
